@@ -266,10 +266,31 @@ FlagsKept(a, b, except) ==
     \A u \in (UidSet(a.msgs) \cap UidSet(b.msgs)) \ except :
         Visible(a.msgs[MsgByUid(a.msgs, u)].fl) = Visible(b.msgs[MsgByUid(b.msgs, u)].fl)
 
+(* SELECT / EXAMINE / STATUS report aggregates of the flags: the number of
+   messages, of \Recent messages, of unseen messages (STATUS) and the position of
+   the first unseen message (SELECT: OK [UNSEEN n], absent when there is none).
+   They are reports about flags like any FETCH FLAGS: they agree with the
+   mailbox as it is when the command completes. *)
+CountWith(ms, f) == Cardinality({i \in DOMAIN ms : f \in ms[i].fl})
+FirstWith(ms, f) == LET I == {i \in DOMAIN ms : f \in ms[i].fl} IN
+                    IF I = {} THEN 0 ELSE CHOOSE i \in I : \A j \in I : i <= j
+C04_Counts(ev, post) ==
+    IF ev.act \in {"Select", "Examine", "Status"} /\ ev.status = "OK" /\ ev.told.counts
+       /\ Has(post, ev.mbox) /\ Live(post, ev.mbox)
+    THEN LET ms == post.mb[ev.mbox].msgs IN
+         (IF ev.told.exists # Len(ms) THEN {"C04.CountsAgree:exists"} ELSE {})
+         \cup (IF ev.told.recent # CountWith(ms, "Recent") THEN {"C04.CountsAgree:recent"} ELSE {})
+         \cup (IF ev.act = "Status" /\ ev.told.unseen # CountWith(ms, "unseen")
+               THEN {"C04.CountsAgree:unseen"} ELSE {})
+         \cup (IF ev.act # "Status" /\ ev.told.first # FirstWith(ms, "unseen")
+               THEN {"C04.CountsAgree:first-unseen"} ELSE {})
+    ELSE {}
+
 C04_Step(pre, ev, post) ==
     LET s == ev.sess
         m == IF ev.act \in {"Store", "Fetch"} THEN ev.src ELSE ""
     IN
+    C04_Counts(ev, post) \cup
     (* memory-level complement everywhere *)
     UNION {IF Live(post, x) THEN SeenComplement(post.mb[x]) ELSE {} : x \in Names(post)}
     \cup
